@@ -493,3 +493,77 @@ def program_strategy(max_depth=4, elements=None, comments=True, max_len=4, hot=T
         node = st.one_of(leaf, leaf, _structures(inner_seq, inner_node), _structures(inner_seq, inner_node))
     items = st.one_of(node, node, node, cmt) if comments else node
     return st.lists(items, min_size=1, max_size=max_len + 1)
+
+
+# ---------------------------------------------------------------------------
+# core grammar (C01 / C12 / C19): total-ish integer / list elements
+# ---------------------------------------------------------------------------
+CORE_ELEMENTS = ["+", "-", "*", "N", "›", "‹", "d", "=", "<", ">", ":", "$", "_", "D", "∇", "W", "!", "^", "w", '"', "J", "L",
+                 "h", "t", "∑", "f", "Ṙ", "n", "?", "ɾ", "½", "¬", "ḃ", "∷", "Ḣ", "Ṫ", "U", "s", "G", "g", "p", "ė"]
+CORE_PRINT = [",", "…", "₴"]
+
+
+def core_strategy(max_depth=3, breaks=True, printing=True, functions=True, max_len=4):
+    ints = st.integers(0, 12).map(lambda n: ["num", str(n)])
+    small = st.integers(0, 3).map(lambda n: ["num", str(n)])
+    el = st.sampled_from(CORE_ELEMENTS).map(lambda k: ["el", k])
+    leaf_opts = [ints, ints, el, el, el, el,
+                 st.sampled_from(["a", "b", ""]).map(lambda v: ["get", v]), st.sampled_from(["a", "b", ""]).map(lambda v: ["set", v])]
+    if printing:
+        leaf_opts.append(st.sampled_from(CORE_PRINT).map(lambda k: ["el", k]))
+    if breaks:
+        leaf_opts += [st.sampled_from([["brk"], ["brk"], ["rec"]])]
+    leaf = st.one_of(*leaf_opts)
+    node = leaf
+    for _ in range(max_depth):
+        inner = node
+        seq = st.lists(inner, max_size=max_len)
+        seq1 = st.lists(inner, min_size=1, max_size=max_len)
+
+        def counted(body_st):
+            return body_st
+
+        structs = [
+            st.lists(seq, min_size=1, max_size=3).map(lambda bs: ["if", bs]),
+            st.tuples(st.one_of(st.none(), st.sampled_from(["a", "i"])), seq).map(lambda t: ["for", t[0], t[1]]),
+            # counter-form while: the condition duplicates the counter, the body ends by decrementing it
+            seq.map(lambda b: ["while", [["el", ":"]], b + [["el", "‹"]]]),
+            st.tuples(seq1, seq).map(lambda t: ["while", t[0], t[1]]),
+            st.tuples(st.one_of(st.none(), st.integers(0, 3)), seq).map(lambda t: ["lam", t[0], t[1]]),
+            seq.map(lambda b: ["map", b]), seq.map(lambda b: ["flt", b]), seq.map(lambda b: ["srt", b]),
+            st.lists(seq, min_size=1, max_size=3).map(lambda bs: ["list", bs]),
+            st.sampled_from(list(MOD_ARITY)).flatmap(
+                lambda m: st.lists(inner, min_size=MOD_ARITY[m], max_size=MOD_ARITY[m]).map(lambda ops: ["mod", m, ops])),
+        ]
+        node = st.one_of(leaf, leaf, leaf, *structs)
+    stmt = node
+    # sequences that make structures likely to run: a small literal before loops / calls after lambdas
+    def glue(seq_):
+        out = []
+        for n in seq_:
+            if n[0] in ("for", "while") :
+                out.append(["num", "3"])
+            if n[0] in ("map", "flt", "srt"):
+                out.append(["num", "3"])
+            out.append(n)
+            if n[0] == "lam":
+                out.append(["el", "†"])
+        return out
+
+    top = st.lists(stmt, min_size=1, max_size=max_len + 2).map(glue)
+    if functions:
+        fdef = st.tuples(st.sampled_from(["f", "g"]), st.lists(st.sampled_from(["1", "2", "a"]), max_size=2),
+                         st.lists(node, max_size=max_len)).map(lambda t: ["def", t[0], t[1], t[2]])
+        call = st.sampled_from(["f", "g"]).map(lambda nm: ["call", nm])
+
+        def with_funcs(t):
+            defs, body, calls = t
+            out = list(defs)
+            for i, n in enumerate(body):
+                out.append(n)
+                if calls and i % 2 == 0 and defs:
+                    out.append(["call", defs[0][1]])
+            return out
+
+        top = st.tuples(st.lists(fdef, max_size=2), top, st.booleans()).map(with_funcs)
+    return top
